@@ -25,6 +25,7 @@ def run(prog, rep, tier):
     rep.notes.append("sibling deviation (not a verdict): elem_loclist_producer numbers by element index `idx` in both directions; C17 does not fix the numbering of relem on location lists")
     apply(rep, "P5", "string words agree with the byte-string model incl. empty operands, embedded NUL, bytes >= 0x80 (source evaluation)", r_core.p5(prog, tier), 9)
     apply(rep, "P6", "sequence words agree with the list model incl. empty operands and needles longer than haystacks (source evaluation)", r_core.p6(prog, tier), 9)
+    apply(rep, "P7", "dup/over/swap/rot/drop realise the before/after table of their documentation, copies are clones, the type profile follows (source evaluation)", r_core.p7(prog), 5)
     import r_pure
     apply(rep, "Q4c", "copies of a sequence (dup, over, reading a name) never alias storage that `add` mutates in place: word results depend on the values, not on how the stack was built", r_pure.q4c(prog), 3)
     maybe_mutants("C11", rep, tier)
